@@ -1,390 +1,1064 @@
-"""C16 contraction schemes (structural clauses)."""
+"""C16 contraction schemes: the library is evaluated on small abstract terms and the result is compared with the
+property itself (conservation of objects, closure of summed indices, requested targets, limits, scaling, value)."""
 from __future__ import annotations
 
 import ast
-import re
+import itertools
+import zlib
 
-from ..model import (AnalysisError, U, Defs, FuncNode, calls_in, call_name, walk_fn, kwarg, enclosing,
-                     enclosing_stmt, short)
-from ..pathcond import conditions
-from . import common
+from ..model import AnalysisError, U
+from ..symex import Symex, Obj, Atom, Func, ClassRef, Ext, Raised
+from ..terms import T
 
 EXPLANATION = (
-    "R16a: every Contraction(indices=, names=) call passes a sequence of index tuples (nesting depth "
-    "2) and a sequence of names (depth 1), inferred from the repo's own annotations; functions "
-    "annotated -> list[Contraction] never return a bare Contraction. R16b: names and indices are "
-    "extended together, exponent-many times. R16c: contracted/target split (target iff counted once "
-    "or term target; canonical sort; outer contraction adopts the requested order). R16d: scaling "
-    "derivation (comp = contracted+target per space, mem = target per space; `total` is the first "
-    "ScalingComponent field, computational before memory; both order=True). R16e: every stored group "
-    "is dominated by the size test against max_group_size; the max_itmd_dim filter precedes "
-    "recursion/yield. R16f: scheme assembly (result re-enters the pool under its unique name with "
-    "its target indices, positions of the group removed, limits forwarded, recursion ends with one "
-    "object). R16g: a group may replace its objects only if no index it sums still occurs on a "
-    "remaining object (closure before elimination).")
+    "The public functions optimize_contractions / unoptimized_contraction and the public class Contraction are "
+    "*evaluated* by sa.symex (everything they call inside the package is evaluated through; only the term/index "
+    "vocabulary - term.objects, term.target, obj.base_and_exponent, obj.sympy.is_number, obj.longname(), obj.idx, "
+    "Index.space/spin/name, get_symbols - is modelled) on a bounded family of small abstract terms (1-5 tensors and "
+    "deltas over occupied/virtual/general indices, with and without spin, exponents, number and symbol prefactors, "
+    "canonical / permuted / batch target indices, with and without the two limits).  Every returned scheme, every "
+    "candidate scheme the search generated (the values yielded by the generator functions that were evaluated) and "
+    "every Contraction object that was built is compared with an independently written reference: "
+    "R16a shape (a list of Contraction records whose `indices` is a sequence of index tuples and `names` a sequence of "
+    "strings of the same length); R16b conservation (the leaves of the scheme are exactly the tensors and deltas of the "
+    "term, exponent-many times, numbers and symbols skipped, negative exponents and foreign objects refused; the final "
+    "contraction carries the requested target indices - term.target or get_symbols(target_indices, target_spin) - in "
+    "the requested order); R16c split (index is target iff it occurs once in the contraction or is a target of the "
+    "term; both groups canonically sorted; result-shaped contraction adopts the requested order); R16d scaling "
+    "(computational = contracted + target and memory = target per space and in total, the chosen scheme minimises "
+    "(max, multiplicity of max) per field total/general/virt/occ, computational before memory, over the generated "
+    "candidates, never above the single simultaneous contraction; ScalingComponent orders by `total` first); "
+    "R16e limits (no contraction of more than max_n_simultaneous_contracted objects, no intermediate above "
+    "max_itmd_dim, in any candidate scheme; RuntimeError when no scheme exists); R16f assembly (unique result names "
+    "recognised by is_contraction, every intermediate consumed exactly once, after it was produced, with its target "
+    "indices; single final contraction; empty term -> []); R16g closure (no index is summed while another live object "
+    "still carries it); R16h value (each scheme evaluated step by step on pseudo-random integer tensors of dimension 2 "
+    "equals the directly summed term).")
 ASSUMPTIONS = [
-    "that a scheme computes the term (interpretation of the contractions) and optimality are not decided",
+    "bounded: the property is decided on the listed family of abstract terms (<= 5 objects, <= 8 indices), not for all terms",
+    "the vocabulary of Term/Obj/Index (objects, target, base_and_exponent, sympy.is_number, longname, idx, space, spin, "
+    "name, get_symbols) is modelled, not analysed here",
+    "optimality is decided relative to the candidate schemes the library's own search generates; completeness of that "
+    "search (which closed groups it offers, growth of groups to their fix point) is not decided",
+    "evaluations that do not terminate within the evaluator's bounds or use constructs outside the evaluator are analysis "
+    "errors (exit 2), not verdicts",
+    "an intermediate whose indices equal the requested target tuple is exempt from max_itmd_dim (as documented by the "
+    "library: only non result-shaped inner contractions are restricted)",
 ]
 
-OC = "generate_code.optimize_contractions:"
-CO = "generate_code.contraction:"
+OCM = "generate_code.optimize_contractions"
+COM = "generate_code.contraction"
+OC = OCM + ":"
+CO = COM + ":"
+CLS = CO + "Contraction"
+IDX = "indices:Index"
 
-ATTR_DEPTH = {"idx": 1, "target": 1, "contracted": 1, "contraction_name": 0, "indices": 2, "names": 1}
-
-
-def ann_depth(text: str):
-    text = text.replace(" ", "")
-    d = 0
-    while True:
-        m = re.match(r"^(list|tuple|List|Tuple)\[(.*)\]$", text)
-        if not m:
-            break
-        d += 1
-        text = m.group(2).split(",")[0] if m.group(2).count("[") == 0 else m.group(2)
-    if "|" in text or text in ("None",):
-        return None
-    return d
+SPACES = {"occ": "ijklmno", "virt": "abcdefgh", "general": "pqrstuvw"}
+FIELDS = ("total", "general", "virt", "occ")
 
 
-class Depth:
-    def __init__(self, fn):
-        self.fn = fn
-        self.defs = Defs(fn)
-        self.ann = {}
-        for a in fn.args.args + fn.args.kwonlyargs:
-            if a.annotation is not None:
-                self.ann[a.arg] = ann_depth(U(a.annotation))
-        for n in walk_fn(fn, nested=False):
-            if isinstance(n, ast.AnnAssign) and isinstance(n.target, ast.Name):
-                self.ann[n.target.id] = ann_depth(U(n.annotation))
+# ------------------------------------------------------------------------------------------------ abstract vocabulary
+class Malformed(Exception):
+    """The evaluated code produced a value that is not a contraction scheme at all."""
 
-    def of(self, node, env=None, depth=0):
-        env = env or {}
-        if depth > 8 or node is None:
+    def __init__(self, rule, msg):
+        super().__init__(msg)
+        self.rule, self.msg = rule, msg
+
+
+def split_names(s):
+    out = []
+    for ch in s:
+        if ch.isdigit() and out:
+            out[-1] += ch
+        else:
+            out.append(ch)
+    return out
+
+
+def space_of(name):
+    for sp, letters in SPACES.items():
+        if name[0] in letters:
+            return sp
+    raise AnalysisError(f"C16: index name {name} outside the modelled spaces")
+
+
+def canon_key(k):
+    name, spin = k
+    return (space_of(name)[0], spin, int(name[1:]) if name[1:] else 0, name[0])
+
+
+class World:
+    """The indices of one scenario: one abstract Index object per (name, spin)."""
+
+    def __init__(self):
+        self.objs = {}
+        self.keys = {}
+
+    def index(self, name, spin=""):
+        k = (name, spin)
+        if k not in self.objs:
+            o = Atom(IDX, name + ("_" + spin if spin else ""), space=space_of(name), spin=spin, dummy_index=len(self.objs),
+                    is_Symbol=True, is_number=False)
+            o.attrs["name"] = name
+            o.attrs["space_and_spin"] = (space_of(name), spin)
+            self.objs[k] = o
+            self.keys[id(o)] = k
+        return self.objs[k]
+
+    def indices(self, names, spins=None):
+        ns = split_names(names) if isinstance(names, str) else list(names)
+        sp = list(spins) if spins else [""] * len(ns)
+        if len(sp) != len(ns):
+            raise Raised("Inputerror", "spin string does not match the indices")
+        return [self.index(n, s) for n, s in zip(ns, sp)]
+
+    def key(self, o):
+        if isinstance(o, Obj) and id(o) in self.keys:
+            return self.keys[id(o)]
+        raise Malformed("R16a", f"`{o!r}` is used as an index but is not an Index of the term")
+
+    def keyseq(self, seq, what):
+        if not isinstance(seq, (list, tuple)):
+            raise Malformed("R16a", f"{what} is `{seq!r}`, not a sequence of indices")
+        return tuple(self.key(x) for x in seq)
+
+
+KIND_CLASSES = {
+    "tensor": ("AntiSymmetricTensor", "SymbolicTensor", "Expr", "Basic"),
+    "nstensor": ("NonSymmetricTensor", "SymbolicTensor", "Expr", "Basic"),
+    "delta": ("KroneckerDelta", "Function", "Expr", "Basic"),
+    "symbol": ("Symbol", "Expr", "Basic", "AtomicExpr"),
+    "number": ("Integer", "Rational", "Number", "Expr", "Basic", "AtomicExpr"),
+    "operator": ("F", "FermionicOperator", "SqOperator", "Expr", "Basic"),
+    "polynom": ("Add", "Expr", "Basic"),
+}
+
+
+class Spec:
+    """A small abstract term.  objs: (longname, index string, exponent[, kind[, spins]])."""
+
+    def __init__(self, label, objs, target=None, spin=None, max_dim=None, max_n=None, term_target=None):
+        self.label = label
+        self.objs = []
+        for o in objs:
+            name, idx, exp = o[0], o[1], o[2] if len(o) > 2 else 1
+            kind = o[3] if len(o) > 3 else ("delta" if name == "delta" else "tensor")
+            spins = o[4] if len(o) > 4 else None
+            self.objs.append((name, idx, exp, kind, spins))
+        self.target, self.spin, self.max_dim, self.max_n = target, spin, max_dim, max_n
+        self.term_target = term_target
+
+    # ---- the expected behaviour, written down independently of the library
+    def leaves(self):
+        """multiset (sorted list) of the (name, index keys) the scheme has to consume."""
+        out = []
+        for name, idx, exp, kind, spins in self.objs:
+            if kind in ("tensor", "nstensor", "delta"):
+                ks = tuple(zip(split_names(idx), spins or [""] * len(split_names(idx))))
+                out.extend([(name, ks)] * exp)
+        return sorted(out)
+
+    def refused(self):
+        """the term must be refused (NotImplementedError): division or an object that is no tensor/delta/prefactor."""
+        for name, idx, exp, kind, spins in self.objs:
+            if kind == "number":
+                continue
+            if exp < 0 or kind in ("operator", "polynom"):
+                return True
+        return False
+
+    def einstein_target(self):
+        """term.target: the indices that occur exactly once, canonically sorted."""
+        if self.term_target is not None:
+            return tuple(self.term_target)
+        cnt = {}
+        for name, ks in self.leaves():
+            for k in ks:
+                cnt[k] = cnt.get(k, 0) + 1
+        return tuple(sorted((k for k, n in cnt.items() if n == 1), key=canon_key))
+
+    def requested(self):
+        if self.target is None:
+            return self.einstein_target()
+        ns = split_names(self.target)
+        return tuple(zip(ns, self.spin or [""] * len(ns)))
+
+    def describe(self):
+        def one(o):
+            name, idx, exp, kind, spins = o
+            s = f"{name}_{idx}" if idx else name
+            if spins:
+                s += f"[{spins}]"
+            return s + (f"^{exp}" if exp != 1 else "")
+        t = "einstein" if self.target is None else f"'{self.target}'" + (f"/'{self.spin}'" if self.spin else "")
+        lim = "".join(f", {k}={v}" for k, v in (("max_itmd_dim", self.max_dim), ("max_n_simultaneous_contracted", self.max_n))
+                      if v is not None)
+        return " ".join(one(o) for o in self.objs) + f" -> {t}{lim}"
+
+
+def build_term(world, spec):
+    objs = []
+    for pos, (name, idx, exp, kind, spins) in enumerate(spec.objs):
+        indices = tuple(world.indices(idx, spins))
+        base = Obj(None, f"base{pos}:{name}", _classes=KIND_CLASSES[kind], is_number=(kind == "number"))
+        base.attrs["name"] = name
+        sympy = Obj(None, f"sympy{pos}:{name}", is_number=(kind == "number"), is_Number=(kind == "number"),
+                    is_Symbol=(kind == "symbol" and exp == 1), is_Pow=(exp != 1), _classes=KIND_CLASSES[kind] if exp == 1 else ("Pow", "Expr", "Basic"))
+        o = Obj(None, f"obj{pos}:{name}", base_and_exponent=(base, exp), base=base, exponent=exp, sympy=sympy, idx=indices,
+                space="".join(space_of(n)[0] for n in split_names(idx)), spin="".join(spins or ""),
+                type_as_str={"tensor": "antisym_tensor", "nstensor": "nonsym_tensor", "delta": "delta", "symbol": "prefactor",
+                             "number": "prefactor", "operator": "create", "polynom": "polynom"}[kind],
+                longname=(lambda sx, a, kw, n=name: n))
+        o.attrs["name"] = name
+        # the wrapper forwards unknown attributes to the wrapped sympy object
+        for k, v in sympy.attrs.items():
+            o.attrs.setdefault(k, v)
+        objs.append(o)
+    tgt = tuple(world.index(n, s) for n, s in spec.einstein_target())
+    return Obj(None, "term", objects=tuple(objs), target=tuple(tgt), idx=tuple(i for o in objs for i in o.attrs["idx"]))
+
+
+# ------------------------------------------------------------------------------------------------------- evaluation
+class _Count:
+    """itertools.count as created once (class attribute): a single shared state per evaluation."""
+
+    def __init__(self, start, step):
+        self.n, self.step = start, step
+
+    def __deepcopy__(self, memo):
+        return self
+
+
+class _Counter(dict):
+    """collections.Counter: absent keys count 0."""
+
+    def __missing__(self, k):
+        return 0
+
+
+class Tracer(Symex):
+    """Symex that remembers what every evaluated generator function of the package yielded."""
+
+    def _invoke(self, f, args, kw, node, top=False):
+        d = self.depth
+        r = super()._invoke(f, args, kw, node, top)
+        if isinstance(r, list) and not isinstance(f.node, ast.Lambda) and not top:
+            self.yielded.append((d, r))
+        return r
+
+
+class Run:
+    """One evaluation of a function of the package in a fresh abstract world."""
+
+    def __init__(self, model, what):
+        self.model, self.what = model, what
+        self.world = World()
+        self.built = []          # every Contraction object that was constructed, in order
+        self.counters = {}
+        self.clsattr = {}
+        sx = Tracer(model, inline=lambda q: True, hooks=self.hooks(), what=what, max_depth=40, max_paths=4,
+                    max_steps=3000000, attr_hook=self.attr_hook)
+        sx.yielded = []
+        self.sx = sx
+
+    # -- hooks (the modelled vocabulary)
+    def hooks(self):
+        h = {"Contraction": self.h_contraction, "count": self.h_count, "next": self.h_next, "Counter": self.h_counter,
+             "from_iterable": self.h_chain, "combinations": self.h_combinations, "fields": self.h_fields,
+             "get_symbols": self.h_get_symbols, "max": self.h_extreme(max), "min": self.h_extreme(min)}
+        for mod in (COM, OCM):
+            m = self.model.module(mod)
+            for q, c in m.classes.items():
+                if dataclass_info(c) is not None:
+                    h[q] = (lambda sx, a, kw, c=c, mod=mod, q=q: self.h_dataclass(mod, q, c, a, kw))
+        return h
+
+    def attr_hook(self, sx, obj, attr, node):
+        # attribute of an instance that lives on the class
+        if isinstance(obj, Obj) and obj.cls and ":" in obj.cls:
+            mod, _, q = obj.cls.partition(":")
+            m = self.model.modules.get(mod)
+            if m is not None and q in m.classes:
+                k = (obj.cls, attr)
+                if k not in self.clsattr:
+                    self.clsattr[k] = sx.getattr(ClassRef(m, q), attr, node)
+                return self.clsattr[k]
+        return NotImplemented
+
+    def h_count(self, sx, a, kw):
+        start = a[0] if a else kw.get("start", 0)
+        step = a[1] if len(a) > 1 else kw.get("step", 1)
+        if len(a) > 2 or not (isinstance(start, int) and isinstance(step, int)) or set(kw) - {"start", "step"}:
+            return NotImplemented      # some other function that happens to be called `count`
+        return self.counters.setdefault((start, step), _Count(start, step))
+
+    def h_next(self, sx, a, kw):
+        if a and isinstance(a[0], _Count):
+            v = a[0].n
+            a[0].n += a[0].step
+            return v
+        return NotImplemented
+
+    def h_counter(self, sx, a, kw):
+        c = _Counter()
+        for x in (sx.iterate(a[0], None) if a else []):
+            c[x] = c[x] + 1
+        return c
+
+    def h_chain(self, sx, a, kw):
+        out = []
+        for x in sx.iterate(a[0], None):
+            out.extend(sx.iterate(x, None))
+        return out
+
+    def h_combinations(self, sx, a, kw):
+        return [tuple(p) for p in itertools.combinations(list(sx.iterate(a[0], None)), a[1] if len(a) > 1 else kw["r"])]
+
+    def h_fields(self, sx, a, kw):
+        c = a[0]
+        if isinstance(c, Obj) and c.cls:
+            mod, _, q = c.cls.partition(":")
+            c = ClassRef(self.model.modules[mod], q)
+        if not isinstance(c, ClassRef):
+            return NotImplemented
+        info = dataclass_info(c.module.classes[c.qual])
+        if info is None:
+            raise Raised("TypeError", "fields() of a class that is no dataclass")
+        out = []
+        for n in info["fields"]:
+            f = Obj(None, f"field:{n}")
+            f.attrs["name"] = n
+            out.append(f)
+        return tuple(out)
+
+    def h_get_symbols(self, sx, a, kw):
+        indices = a[0] if a else kw.get("indices")
+        spins = a[1] if len(a) > 1 else kw.get("spins")
+        if isinstance(indices, Obj):
+            return [indices]
+        if not indices:
+            return []
+        if not isinstance(indices, str):
+            if all(isinstance(i, Obj) for i in indices):
+                return indices
+            indices = "".join(indices)
+        if not (spins is None or isinstance(spins, str)):
+            raise AnalysisError(f"C16({self.what}): get_symbols called with spins `{spins!r}`")
+        return self.world.indices(indices, spins)
+
+    def h_extreme(self, pyf):
+        def hook(sx, a, kw):
+            seq = a[0] if len(a) == 1 else a
+            if isinstance(seq, (list, tuple)) and seq and all(isinstance(x, Obj) and "_dc" in x.attrs for x in seq) and not kw:
+                if not all(x.attrs["_dc"]["order"] for x in seq):
+                    raise Raised("TypeError", "ordering of a dataclass without order=True")
+                return pyf(seq, key=lambda x: tuple(x.attrs[f] for f in x.attrs["_dc"]["fields"]))
+            return NotImplemented
+        return hook
+
+    def h_dataclass(self, mod, q, cnode, a, kw):
+        info = dataclass_info(cnode)
+        names = list(info["fields"])
+        if len(a) > len(names):
+            raise Raised("TypeError", f"{q}: too many arguments")
+        vals = dict(zip(names, a))
+        for k, v in kw.items():
+            if k not in names or k in vals:
+                raise Raised("TypeError", f"{q}: unexpected argument {k}")
+            vals[k] = v
+        if set(vals) != set(names):
+            raise Raised("TypeError", f"{q}: missing arguments {sorted(set(names) - set(vals))}")
+        o = Obj(f"{mod}:{q}", f"{q}#{len(self.built)}", **{n: vals[n] for n in names})
+        o.attrs["_dc"] = info
+        return o
+
+    def h_contraction(self, sx, a, kw):
+        init = sx.find_method(CLS, "__init__")
+        if init is None:
+            raise AnalysisError("C16: Contraction.__init__ not found")
+        o = Obj(CLS, f"Contraction#{len(self.built)}")
+        f = Func(init[0], [], init[0]._module, init[0]._qual, bound=o)
+        b = sx.bind(init[0], [o] + list(a), kw)
+        # the record that will be built must be a contraction of index tuples
+        self.args_shape(b)
+        sx._invoke(f, a, kw, init[0])
+        o.attrs["_ctor"] = {k: v for k, v in b.items() if k != "self"}
+        self.built.append(o)
+        return o
+
+    def args_shape(self, b):
+        ind, nam = b.get("indices"), b.get("names")
+        if not isinstance(ind, (list, tuple)) or not all(isinstance(t, (list, tuple)) for t in ind):
+            raise Malformed("R16a", f"Contraction(indices={show_val(ind)}): not a sequence of index tuples (one tuple per "
+                            "contracted object); the constructor iterates it as such")
+        for t in ind:
+            self.world.keyseq(t, "an element of `indices`")
+        if not isinstance(nam, (list, tuple)) or not all(isinstance(n, str) for n in nam):
+            raise Malformed("R16a", f"Contraction(names={show_val(nam)}): not a sequence of names (one string per object)")
+        if len(nam) != len(ind):
+            raise Malformed("R16a", f"Contraction built from {len(nam)} names but {len(ind)} index tuples")
+
+    # -- driving
+    def call(self, ref, make_args):
+        """-> ('return', value) | ('raise', exception name)"""
+        outs = self.sx.run(ref, make_args)
+        if len(outs) != 1:
+            raise AnalysisError(f"C16({self.what}): the evaluation depends on something outside the modelled vocabulary "
+                                f"({len(outs)} paths: {[o.path for o in outs][:2]})")
+        o = outs[0]
+        return (o.kind, o.value if o.kind == "return" else o.exc)
+
+
+def dataclass_info(cnode):
+    for d in cnode.decorator_list:
+        f = d.func if isinstance(d, ast.Call) else d
+        if U(f).split(".")[-1] == "dataclass":
+            kw = {k.arg: k.value.value for k in d.keywords if isinstance(k.value, ast.Constant)} if isinstance(d, ast.Call) else {}
+            fields = [n.target.id for n in cnode.body if isinstance(n, ast.AnnAssign) and isinstance(n.target, ast.Name)
+                      and "ClassVar" not in U(n.annotation)]
+            return {"fields": tuple(fields), "order": bool(kw.get("order", False))}
+    return None
+
+
+def show_val(v, depth=0):
+    if isinstance(v, (list, tuple)):
+        br = "[]" if isinstance(v, list) else "()"
+        return br[0] + ", ".join(show_val(x, depth + 1) for x in v) + br[1]
+    if isinstance(v, Obj):
+        return v.name
+    return repr(v)
+
+
+# ------------------------------------------------------------------------------------------------- reference model
+class Rec:
+    """A Contraction object of the evaluation, translated into plain data."""
+
+    def __init__(self, world, o):
+        if not (isinstance(o, Obj) and o.cls == CLS):
+            raise Malformed("R16a", f"`{show_val(o)}` is not a Contraction")
+        a = o.attrs
+        for need in ("indices", "names", "contracted", "target", "scaling", "contraction_name"):
+            if need not in a:
+                raise Malformed("R16a", f"Contraction object without attribute `{need}`")
+        if not isinstance(a["indices"], (list, tuple)):
+            raise Malformed("R16a", f"Contraction.indices is `{show_val(a['indices'])}`")
+        self.obj = o
+        self.indices = tuple(world.keyseq(t, "an element of Contraction.indices") for t in a["indices"])
+        if not isinstance(a["names"], (list, tuple)) or not all(isinstance(n, str) for n in a["names"]):
+            raise Malformed("R16a", f"Contraction.names is `{show_val(a['names'])}`, not a sequence of strings")
+        self.names = tuple(a["names"])
+        if len(self.names) != len(self.indices):
+            raise Malformed("R16a", f"Contraction with {len(self.names)} names and {len(self.indices)} index tuples")
+        self.contracted_is_tuple = isinstance(a["contracted"], tuple)
+        self.target_is_tuple = isinstance(a["target"], tuple)
+        self.contracted = world.keyseq(a["contracted"], "Contraction.contracted")
+        self.target = world.keyseq(a["target"], "Contraction.target")
+        self.cname = a["contraction_name"]
+        if not isinstance(self.cname, str):
+            raise Malformed("R16f", f"contraction_name is `{show_val(self.cname)}`")
+        sc = a["scaling"]
+        self.scaling = {}
+        for part in ("computational", "memory"):
+            p = sc.attrs.get(part) if isinstance(sc, Obj) else None
+            if not isinstance(p, Obj) or not all(isinstance(p.attrs.get(f), int) for f in FIELDS):
+                raise Malformed("R16d", f"Contraction.scaling.{part} is `{show_val(p)}`: no ScalingComponent with integer "
+                                f"fields {FIELDS}")
+            self.scaling[part] = {f: p.attrs[f] for f in FIELDS}
+
+    def operands(self):
+        return list(zip(self.names, self.indices))
+
+    def show(self):
+        ops = " ".join(f"{n}_{fmt(ix)}" for n, ix in self.operands())
+        return f"{self.cname}: [{ops}] sum({fmt(self.contracted)}) -> {fmt(self.target)}"
+
+
+def fmt(keys):
+    return "".join(n + (f"({s})" if s else "") for n, s in keys) or "-"
+
+
+def ref_split(indices, term_targets):
+    """(summed, kept) index sets of one contraction: kept iff it occurs once or is a target of the term."""
+    cnt = {}
+    for t in indices:
+        for k in t:
+            cnt[k] = cnt.get(k, 0) + 1
+    kept = {k for k, n in cnt.items() if n == 1 or k in term_targets}
+    return set(cnt) - kept, kept
+
+
+def ref_contraction(indices, term_targets):
+    summed, kept = ref_split(indices, term_targets)
+    contracted = tuple(sorted(summed, key=canon_key))
+    target = tuple(sorted(kept, key=canon_key))
+    if tuple(sorted(term_targets, key=canon_key)) == target:
+        target = tuple(term_targets)
+    return contracted, target
+
+
+def ref_scaling(contracted, target):
+    comp = {"total": len(contracted) + len(target)}
+    mem = {"total": len(target)}
+    for sp in SPACES:
+        comp[sp] = sum(1 for k in contracted if space_of(k[0]) == sp) + sum(1 for k in target if space_of(k[0]) == sp)
+        mem[sp] = sum(1 for k in target if space_of(k[0]) == sp)
+    return {"computational": comp, "memory": mem}
+
+
+def ref_rank(recs):
+    """ranking vector of a scheme: per field (max, multiplicity of the max), computational before memory."""
+    out = []
+    for part in ("computational", "memory"):
+        for f in FIELDS:
+            vals = [ref_scaling(r.contracted, r.target)[part][f] for r in recs]
+            out.extend([max(vals), vals.count(max(vals))])
+    return out
+
+
+def tensor_value(name, values):
+    return zlib.crc32(repr((name, tuple(values))).encode()) % 7 + 1
+
+
+def direct_value(leaves, target, dim=2):
+    allidx = sorted({k for _, ks in leaves for k in ks} | set(target))
+    free = list(dict.fromkeys(target))
+    summed = [k for k in allidx if k not in free]
+    out = {}
+    for fv in itertools.product(range(dim), repeat=len(free)):
+        env = dict(zip(free, fv))
+        tot = 0
+        for sv in itertools.product(range(dim), repeat=len(summed)):
+            env.update(zip(summed, sv))
+            p = 1
+            for name, ks in leaves:
+                p *= tensor_value(name, [env[k] for k in ks])
+            tot += p
+        out[tuple(env[k] for k in target)] = tot
+    return out
+
+
+def scheme_value(recs, dim=2):
+    """value of the last contraction when the scheme is carried out step by step (einsum semantics per step)."""
+    tables = {}
+    res = None
+    for r in recs:
+        free = list(dict.fromkeys(r.target))
+        on_ops = {k for ix in r.indices for k in ix}
+        if not set(free) <= on_ops:
+            return None, f"{r.show()}: a result index does not occur on any operand"
+        summed = sorted(on_ops - set(free))
+        ops = []
+        for name, ix in r.operands():
+            if name in tables:
+                tab, tix = tables[name]
+                if len(tix) != len(ix):
+                    return None, f"{r.show()}: intermediate {name} has {len(tix)} indices but is used with {len(ix)}"
+                ops.append((tab, ix))
+            else:
+                ops.append((name, ix))
+        out = {}
+        for fv in itertools.product(range(dim), repeat=len(free)):
+            env = dict(zip(free, fv))
+            tot = 0
+            for sv in itertools.product(range(dim), repeat=len(summed)):
+                env.update(zip(summed, sv))
+                p = 1
+                for src, ix in ops:
+                    vals = tuple(env[k] for k in ix)
+                    p *= src[vals] if isinstance(src, dict) else tensor_value(src, vals)
+                tot += p
+            out[tuple(env[k] for k in r.target)] = tot
+        tables[r.cname] = (out, r.target)
+        res = out
+    return res, None
+
+
+# ------------------------------------------------------------------------------------------------ scheme verdicts
+def scheme_findings(spec, recs, final=True):
+    """Every way in which the contractions `recs` fail to be a valid scheme for `spec`: list of (rule, key, message)."""
+    out = []
+    requested = spec.requested()
+    if not recs:
+        return [("R16f", "empty scheme", "the scheme is empty although the term contains tensors")]
+    names = [r.cname for r in recs]
+    if len(set(names)) != len(names):
+        out.append(("R16f", "unique name", f"contraction names are not unique: {names}"))
+    produced = {}
+    leaves = []
+    consumed = {}
+    # pool of live objects, step by step
+    pool = [(n, ks) for n, ks in spec.leaves()]
+    for step, r in enumerate(recs):
+        ops = r.operands()
+        for n, ix in ops:
+            if n in produced:
+                consumed[n] = consumed.get(n, 0) + 1
+                if ix != produced[n].target:
+                    out.append(("R16f", "pool indices", f"{r.show()}: the intermediate {n} was produced with the indices "
+                                f"{fmt(produced[n].target)} but is consumed with {fmt(ix)}"))
+            elif n in names:
+                out.append(("R16f", "order", f"{r.show()}: {n} is consumed before it is produced"))
+            else:
+                leaves.append((n, ix))
+        # closure: nothing that stays alive may carry an index that is summed here
+        rest = list(pool)
+        for n, ix in ops:
+            key = (n, produced[n].target) if n in produced else (n, ix)
+            if key in rest:
+                rest.remove(key)
+        for k in r.contracted:
+            carriers = [n for n, ix in rest if k in ix]
+            if carriers:
+                out.append(("R16g", "closure", f"{r.show()}: the index {fmt([k])} is summed although {carriers} still carries "
+                            "it (the group is not closed)"))
+        pool = rest + [(r.cname, r.target)]
+        produced[r.cname] = r
+    if sorted(leaves) != spec.leaves():
+        from collections import Counter
+        got, want = Counter(leaves), Counter(spec.leaves())
+        miss = sorted((want - got).elements())
+        extra = sorted((got - want).elements())
+        out.append(("R16b", "conservation", "the scheme does not use every tensor/delta of the term exactly once (with "
+                    f"multiplicity): missing {[f'{n}_{fmt(ix)}' for n, ix in miss]}, surplus {[f'{n}_{fmt(ix)}' for n, ix in extra]}"))
+    for r in recs[:-1]:
+        if consumed.get(r.cname, 0) != 1:
+            out.append(("R16f", "consumed once", f"the intermediate {r.cname} is consumed {consumed.get(r.cname, 0)} times"))
+    if consumed.get(recs[-1].cname, 0):
+        out.append(("R16f", "final", "the last contraction is consumed by another one"))
+    if final and recs[-1].target != requested:
+        out.append(("R16b", "targets", f"the last contraction carries {fmt(recs[-1].target)}, requested were the target indices "
+                    f"{fmt(requested)} in this order"))
+    # limits
+    if spec.max_n is not None:
+        for r in recs:
+            if len(r.names) > spec.max_n:
+                out.append(("R16e", "group size", f"{r.show()} contracts {len(r.names)} objects simultaneously, "
+                            f"max_n_simultaneous_contracted={spec.max_n}"))
+    if spec.max_dim is not None:
+        for r in recs[:-1]:
+            if len(r.target) > spec.max_dim and r.target != requested:
+                out.append(("R16e", "itmd dim", f"{r.show()} creates an intermediate of dimension {len(r.target)}, "
+                            f"max_itmd_dim={spec.max_dim}"))
+    # value (decided independently of the structural findings above)
+    if final:
+        want = direct_value(spec.leaves(), requested)
+        got, err = scheme_value(recs)
+        if got is not None and recs[-1].target != requested and sorted(recs[-1].target) == sorted(requested):
+            # same result indices in another order: compare the tensors up to that transposition
+            perm = [recs[-1].target.index(k) for k in requested]
+            got = {tuple(key[p] for p in perm): v for key, v in got.items()}
+        if err or got != want:
+            out.append(("R16h", "value", "carried out step by step the scheme does not give the value of the term"
+                        + (f" ({err})" if err else "")))
+    return out
+
+
+def contraction_findings(r, term_targets):
+    """one Contraction object against the reference split / order / scaling."""
+    out = []
+    ctr, tgt = ref_contraction(r.indices, term_targets)
+    if set(r.contracted) != set(ctr) or set(r.target) != set(tgt) or len(r.contracted) != len(ctr) or len(r.target) != len(tgt):
+        out.append(("R16c", "split", f"{r.show()}: expected sum({fmt(ctr)}) -> {fmt(tgt)} (an index is kept iff it occurs once "
+                    "in the contraction or is a target index of the term)"))
+    else:
+        if r.contracted != ctr:
+            out.append(("R16c", "sort", f"{r.show()}: summed indices not in canonical order {fmt(ctr)}"))
+        if r.target != tgt:
+            adopted = tgt == tuple(term_targets) and tuple(sorted(tgt, key=canon_key)) != tgt
+            out.append(("R16c", "adopt order" if adopted else "sort",
+                        f"{r.show()}: result indices expected in the order {fmt(tgt)}"
+                        + (" (the requested order of the term's target indices)" if adopted else " (canonical)")))
+        if not (r.contracted_is_tuple and r.target_is_tuple):
+            out.append(("R16c", "store", f"{r.show()}: contracted/target are not stored as tuples (the search compares "
+                        "`contraction.target` with the target tuple of the term)"))
+    want = ref_scaling(r.contracted, r.target)
+    if r.scaling != want:
+        out.append(("R16d", "components", f"{r.show()}: reported scaling {r.scaling}, true scaling {want} (computational = "
+                    "summed + result indices, memory = result indices, per space and in total)"))
+    return out
+
+
+# ------------------------------------------------------------------------------------------------------ scenarios
+def S(label, objs, **kw):
+    return Spec(label, objs, **kw)
+
+
+QUICK = [
+    S("pair", [("V", "ijab"), ("t2", "abij")]),
+    S("pair kept", [("V", "ijab"), ("t1", "bj")]),
+    S("permuted target", [("V", "ijab"), ("t1", "bj")], target="ai"),
+    S("chain3", [("f", "ij"), ("t1", "ja"), ("Y", "ab")]),
+    S("ring3 scalar", [("A", "ij"), ("B", "jk"), ("C", "ki")]),
+    S("square", [("X", "ijab", 2)]),
+    S("square + delta + prefactors", [("2", "", 1, "number"), ("c", "", 2, "symbol"), ("t1", "ia", 2), ("delta", "jk")]),
+    S("trace", [("d", "iia"), ("t1", "ja")]),
+    S("outer product", [("t1", "ia"), ("t1", "jb")], target="iajb"),
+    S("batch index", [("A", "ika"), ("B", "kja")], target="ikj"),
+    S("spin", [("A", "ia", 1, "tensor", "ab"), ("B", "aj", 1, "tensor", "bb")], target="ji", spin="ba"),
+    S("spin batch", [("A", "ika", 1, "tensor", "aab"), ("B", "kja", 1, "tensor", "aab")], target="ikj", spin="aaa"),
+    S("general indices", [("h", "pq"), ("D", "qp")]),
+    S("mixed spaces", [("X", "pqi"), ("Y", "pqj"), ("Z", "ija")]),
+    S("four objects", [("A", "cj"), ("B", "kiba"), ("C", "jid"), ("D", "kabc")], target="d"),
+    S("four objects dim 2", [("A", "cj"), ("B", "kiba"), ("C", "jid"), ("D", "kabc")], target="d", max_dim=2),
+    S("doubled pair", [("A", "ij"), ("B", "jk", 2), ("C", "ik")]),
+    S("doubled pair n 3", [("A", "ij"), ("B", "jk", 2), ("C", "ik")], max_n=3),
+    S("hyper only", [("A", "ijk"), ("B", "ijk"), ("C", "ijk")]),
+    S("disconnected", [("A", "ij"), ("B", "ij"), ("C", "ab"), ("D", "ab")]),
+    S("big intermediate", [("A", "ijab"), ("B", "klab"), ("C", "kc"), ("D", "lc")], target="ij", max_dim=2),
+    S("rank by total", [("X", "ip"), ("Y", "pq"), ("Z", "qj"), ("W", "abj")], target="iab"),
+    S("limit below the first level", [("A", "ij"), ("B", "jk", 2), ("C", "ik"), ("D", "ab")], max_n=3),
+    S("result above dim", [("t2", "acik"), ("t2", "bcjk")], target="ijab", max_dim=2),
+    S("result above dim 3 objects", [("t1", "ia"), ("t1", "jb"), ("f", "bc")], target="iajc", max_dim=2),
+    S("rank general before virt/occ", [("A", "j"), ("B", "jq"), ("C", "kq")]),
+    S("rank general before virt", [("A", "ibp"), ("B", "i"), ("C", "p")]),
+    S("rank virt before occ", [("A", "ia"), ("B", "ij"), ("C", "aj")]),
+    S("rank multiplicity", [("A", "kia"), ("B", "ki"), ("C", "a")]),
+    S("rank computational before memory", [("A", "ij"), ("B", "iqj"), ("C", "q")]),
+    S("rank memory breaks the tie", [("A", "j"), ("B", "jik"), ("C", "ik")]),
+    S("rank memory breaks the tie four", [("A", "icab"), ("B", "c"), ("C", "i"), ("D", "ab")]),
+    S("doubled pair first n 3", [("B", "jk", 2), ("A", "ij"), ("C", "ik")], max_n=3),
+    S("rank four", [("A", "aj"), ("B", "bj"), ("C", "qa"), ("D", "qb")]),
+    S("n 2", [("f", "ij"), ("t1", "ja"), ("Y", "ab"), ("Z", "bk")], max_n=2),
+    S("single", [("V", "ijab")]),
+    S("single permuted", [("V", "ijab")], target="abij"),
+    S("single trace", [("V", "ijij")]),
+    S("single delta", [("delta", "ij")]),
+]
+
+REFUSED = [
+    S("division", [("V", "ijab"), ("t2", "abij", -1)]),
+    S("inverse square", [("e", "ia", -2), ("t1", "ia")]),
+    S("operator", [("V", "ijab"), ("a", "i", 1, "operator")]),
+    S("polynom", [("V", "ijab"), ("poly", "ia", 1, "polynom")]),
+]
+
+EMPTY = [
+    S("number only", [("3", "", 1, "number")]),
+    S("prefactors only", [("3", "", 1, "number"), ("c", "", 1, "symbol")]),
+]
+
+IMPOSSIBLE = [
+    S("hyper only n 2", [("A", "ijk"), ("B", "ijk"), ("C", "ijk")], max_n=2),
+    S("dim 0", [("A", "ia"), ("B", "jb"), ("C", "ijab")], max_dim=0, max_n=2),
+    S("shared by three n 2", [("A", "ia"), ("B", "ib"), ("C", "ic"), ("D", "abc")], max_n=2),
+    S("star dim 1", [("A", "ja"), ("B", "kb"), ("C", "lc"), ("D", "abc")], target="jkl", max_dim=1),
+]
+
+THOROUGH = [
+    S("five chain", [("A", "ij"), ("B", "jk"), ("C", "kl"), ("D", "lm"), ("E", "mi")]),
+    S("five chain dim 2 n 2", [("A", "ij"), ("B", "jk"), ("C", "kl"), ("D", "lm"), ("E", "mn")], max_dim=2, max_n=2),
+    S("adc-like", [("Y", "jb"), ("V", "icka"), ("t2", "bcjk")], target="ia"),
+    S("adc-like permuted", [("Y", "jb"), ("V", "icka"), ("t2", "bcjk")], target="ai"),
+    S("mp2 density", [("t2", "acik"), ("t2", "bcjk")], target="ijab"),
+    S("star", [("A", "ia"), ("B", "ib"), ("C", "ic"), ("D", "abc")]),
+    S("star n 2", [("A", "ja"), ("B", "kb"), ("C", "lc"), ("D", "abc")], target="jkl", max_n=2),
+    S("star dim 3", [("A", "ja"), ("B", "kb"), ("C", "lc"), ("D", "abc")], target="jkl", max_dim=3),
+    S("cube", [("X", "ia", 3)]),
+    S("square in chain", [("A", "ij"), ("B", "jk", 2), ("C", "kl")]),
+    S("two deltas", [("delta", "ij"), ("delta", "ab"), ("V", "iajb")]),
+    S("spin mixed", [("A", "ijab", 1, "tensor", "abab"), ("B", "abk", 1, "tensor", "abb")], target="kji", spin="bba"),
+    S("general", [("X", "pqrs"), ("Y", "rs"), ("Z", "qt")], target="tp"),
+    S("four dim 3", [("A", "cj"), ("B", "kiba"), ("C", "jid"), ("D", "kabc")], target="d", max_dim=3),
+    S("four n 2", [("A", "cj"), ("B", "kiba"), ("C", "jid"), ("D", "kabc")], target="d", max_n=2),
+    S("four n 3 dim 3", [("A", "cj"), ("B", "kiba"), ("C", "jid"), ("D", "kabc")], target="d", max_n=3, max_dim=3),
+]
+
+
+# ----------------------------------------------------------------------------------------------------- evaluation
+class Evaluated:
+    """optimize_contractions / unoptimized_contraction evaluated on one spec."""
+
+    def __init__(self, ctx, spec, fname):
+        self.spec, self.fname = spec, fname
+        self.fn = ctx.model.fn(OC + fname)
+        self.run = Run(ctx.model, f"{fname}: {spec.describe()}")
+        self.kind = self.value = self.error = None
+        self.recs = None
+        run = self.run
+
+        def args():
+            a = dict(term=build_term(run.world, spec), target_indices=spec.target, target_spin=spec.spin)
+            params = {p.arg for p in self.fn.args.args + self.fn.args.kwonlyargs}
+            if "max_itmd_dim" in params:
+                a["max_itmd_dim"] = spec.max_dim
+            if "max_n_simultaneous_contracted" in params:
+                a["max_n_simultaneous_contracted"] = spec.max_n
+            return a
+        try:
+            self.kind, self.value = run.call(self.fn, args)
+            if self.kind == "return":
+                v = self.value
+                if not isinstance(v, list):
+                    raise Malformed("R16a", f"returns `{show_val(v)}`, not a list of contractions")
+                self.recs = [Rec(run.world, o) for o in v]
+        except Malformed as e:
+            self.error = e
+
+    def candidates(self):
+        """the schemes the search generated: the outermost evaluated generator whose elements are lists of Contractions."""
+        best = None
+        for d, v in self.run.sx.yielded:
+            if v and all(isinstance(s, list) and s and all(isinstance(c, Obj) and c.cls == CLS for c in s) for s in v):
+                if best is None or d < best[0]:
+                    best = (d, v)
+        if best is None:
             return None
-        if isinstance(node, ast.Name):
-            if node.id in env:
-                return env[node.id]
-            if node.id in self.ann and self.ann[node.id] is not None:
-                return self.ann[node.id]
-            v = self.defs.single(node.id)
-            if v is not None:
-                return self.of(v, env, depth + 1)
-            # several bindings: the ones that reach the use must agree
-            st = enclosing_stmt(node) if hasattr(node, "_parent") else None
-            if st is not None:
-                from .deriv import reaching_assignments
-                ds = set()
-                for a in reaching_assignments(self.fn, node.id, st):
-                    t = a.targets[0]
-                    if isinstance(t, ast.Tuple) and isinstance(a.value, ast.Tuple) and len(t.elts) == len(a.value.elts):
-                        k = [U(e) for e in t.elts].index(node.id)
-                        ds.add(self.of(a.value.elts[k], env, depth + 1))
-                    elif isinstance(t, ast.Name):
-                        ds.add(self.of(a.value, env, depth + 1))
-                    else:
-                        ds.add(None)
-                if len(ds) == 1:
-                    return ds.pop()
-            return None
-        if isinstance(node, ast.Constant):
-            return 0
-        if isinstance(node, ast.JoinedStr):
-            return 0
-        if isinstance(node, ast.Subscript):
-            if isinstance(node.slice, ast.Slice):
-                return self.of(node.value, env, depth + 1)
-            if isinstance(node.value, (ast.Tuple, ast.List)) and isinstance(node.slice, ast.Constant):
-                return self.of(node.value.elts[node.slice.value], env, depth + 1)
-            d = self.of(node.value, env, depth + 1)
-            return None if d is None else d - 1
-        if isinstance(node, (ast.Tuple, ast.List)):
-            if not node.elts:
-                return 1
-            e = node.elts[0]
-            d = self.of(e.value if isinstance(e, ast.Starred) else e, env, depth + 1)
-            if isinstance(e, ast.Starred):
-                return d
-            return None if d is None else d + 1
-        if isinstance(node, (ast.GeneratorExp, ast.ListComp)):
-            env2 = dict(env)
-            for g in node.generators:
-                di = self.of(g.iter, env2, depth + 1)
-                if isinstance(g.target, ast.Name):
-                    env2[g.target.id] = None if di is None else di - 1
-            d = self.of(node.elt, env2, depth + 1)
-            return None if d is None else d + 1
-        if isinstance(node, ast.Call):
-            if isinstance(node.func, ast.Name) and node.func.id in ("tuple", "list", "sorted") and node.args:
-                return self.of(node.args[0], env, depth + 1)
-            if call_name(node) == "longname":
-                return 0
-            if call_name(node) == "range":
-                return 1
-            return None
-        if isinstance(node, ast.Attribute):
-            return ATTR_DEPTH.get(node.attr)
-        return None
+        return [[Rec(self.run.world, o) for o in s] for s in best[1]]
+
+    def built(self):
+        return [Rec(self.run.world, o) for o in self.run.built]
 
 
-def r16a(ctx):
-    rule = "R16a"
+_CACHE = {}
+
+
+def evaluated(ctx, spec, fname):
+    k = (id(ctx.model), fname, spec.describe())
+    if k not in _CACHE:
+        _CACHE[k] = Evaluated(ctx, spec, fname)
+    return _CACHE[k]
+
+
+FUNCS = ("optimize_contractions", "unoptimized_contraction")
+
+
+def specs(ctx):
+    return QUICK + (THOROUGH if ctx.tier == "thorough" else [])
+
+
+def applicable(spec, fname):
+    return fname == "optimize_contractions" or (spec.max_dim is None and spec.max_n is None)
+
+
+def each(ctx):
+    for fname in FUNCS:
+        for spec in specs(ctx):
+            if applicable(spec, fname):
+                yield fname, spec, evaluated(ctx, spec, fname)
+
+
+def report(ctx, rule, ev, findings, fact, keys=None):
+    """One obligation per (function, scenario): the findings of `rule` or the fact."""
+    mine = [f for f in findings if f[0] == rule and (keys is None or f[1] in keys)]
+    key = f"{ev.fname} | {ev.spec.label}"
+    if mine:
+        seen = set()
+        for _, k, msg in mine:
+            if k in seen:
+                continue
+            seen.add(k)
+            ctx.bad(rule, ev.fn, f"{ev.fname}({ev.spec.describe()}): {msg}", key=f"{key} | {k}")
+    else:
+        ctx.ok(rule, ev.fn, f"{ev.fname}({ev.spec.describe()}): {fact}", key=key)
+
+
+def _findings(ev):
+    """all findings of the returned scheme, of the candidates and of the built contractions (cached on ev)."""
+    if hasattr(ev, "_f"):
+        return ev._f
+    out = []
+    spec = ev.spec
+    if ev.error is not None:
+        out.append((ev.error.rule, "shape", ev.error.msg))
+    elif ev.kind == "raise":
+        limited = spec.max_dim is not None or spec.max_n is not None
+        out.append(("R16e" if limited else "R16b", "raises", f"raises {ev.value} although the term has a contraction scheme"
+                    + (" within the limits" if limited else "")))
+    else:
+        try:
+            if not ev.recs and spec.leaves():
+                out.append(("R16f", "empty scheme", "returns an empty scheme although the term contains tensors"))
+            elif ev.recs:
+                out.extend(scheme_findings(spec, ev.recs))
+            term_targets = spec.requested()
+            for r in ev.built():
+                out.extend(contraction_findings(r, term_targets))
+            cands = ev.candidates() if ev.fname == "optimize_contractions" else None
+            ev.n_cands = len(cands) if cands else 0
+            if cands:
+                for s in cands:
+                    out.extend((rule, k, f"candidate scheme [{'; '.join(r.show() for r in s)}]: {m}")
+                               for rule, k, m in scheme_findings(spec, s))
+                if ev.recs:
+                    ranks = [ref_rank(s) for s in cands]
+                    mine = ref_rank(ev.recs)
+                    if mine != min(ranks):
+                        out.append(("R16d", "ranking", f"the returned scheme ranks {mine}, the best generated candidate "
+                                    f"{min(ranks)} ((max, multiplicity) per field total, general, virt, occ; computational "
+                                    "before memory; lowest wins)"))
+            if ev.recs:
+                hyper = ref_scaling(*ref_contraction([ks for _, ks in spec.leaves()], term_targets))["computational"]["total"]
+                worst = max(ref_scaling(r.contracted, r.target)["computational"]["total"] for r in ev.recs)
+                if worst > hyper:
+                    out.append(("R16d", "bound", f"maximal computational scaling {worst} exceeds that of the single "
+                                f"simultaneous contraction ({hyper})"))
+                if ev.fname == "unoptimized_contraction" and len(ev.recs) != 1:
+                    out.append(("R16f", "unoptimized", f"unoptimized_contraction returns {len(ev.recs)} contractions, "
+                                "expected the single simultaneous contraction of all objects"))
+        except Malformed as e:
+            out.append((e.rule, "shape", e.msg))
+    ev._f = out
+    return out
+
+
+def floor(ctx, rule, what, found, minimum):
+    """instance floor; a tree that already violates the property is reported as such, not as an analysis error"""
+    if not ctx.violations and not any(_findings(ev) for _, _, ev in each(ctx)):
+        ctx.floor(rule, what, found, minimum)
+
+
+def _rule_over_scenarios(ctx, rule, fact, minimum, keys=None):
     n = 0
-    for mod in ("generate_code.optimize_contractions", "generate_code.generate_code", "generate_code.contraction"):
-        m = ctx.model.module(mod)
-        for q, fn in m.functions.items():
-            d = Depth(fn)
-            for c in calls_in(fn, nested=False):
-                if call_name(c) != "Contraction" or not (c.args or c.keywords):
-                    continue
-                n += 1
-                ind, nam = kwarg(c, "indices", 0), kwarg(c, "names", 1)
-                di, dn = d.of(ind), d.of(nam)
-                ctx.check(rule, c, di == 2, f"{q}: indices is a sequence of index tuples",
-                          f"{q}: Contraction(indices={U(ind)}) has nesting depth {di}; the constructor iterates it as a "
-                          "sequence of index tuples (depth 2)", fn=f"{mod}:{q}", key=f"{q} indices depth")
-                ctx.check(rule, c, dn == 1, f"{q}: names is a sequence of strings",
-                          f"{q}: Contraction(names={U(nam)}) has nesting depth {dn}; a sequence of names (depth 1) is "
-                          "required", fn=f"{mod}:{q}", key=f"{q} names depth")
-            if fn.returns is not None and U(fn.returns).replace(" ", "") == "list[Contraction]":
-                for r in common.returns_of(fn):
-                    v = r.value
-                    bad = isinstance(v, ast.Call) and call_name(v) == "Contraction"
-                    ctx.check(rule, r, not bad, f"{q}: returns a list",
-                              f"{q}: annotated -> list[Contraction] but returns a bare Contraction object",
-                              fn=f"{mod}:{q}", key=f"{q} return list")
-    ctx.floor(rule, "Contraction(...) constructor calls", n, 3)
+    for fname, spec, ev in each(ctx):
+        report(ctx, rule, ev, _findings(ev), fact, keys)
+        n += 1
+    floor(ctx, rule, "evaluated scenarios", n, minimum)
+
+
+# ------------------------------------------------------------------------------------------------------------ rules
+def r16a(ctx):
+    _rule_over_scenarios(ctx, "R16a", "a list of Contraction records (index tuples, names) is returned", 30)
 
 
 def r16b(ctx):
     rule = "R16b"
-    for name in ("optimize_contractions", "unoptimized_contraction"):
-        fn = ctx.model.fn(OC + name)
-        ext = [c for c in calls_in(fn) if call_name(c) == "extend" and U(c.func.value) in ("relevant_obj_names", "relevant_obj_indices")]
-        got = {U(c.func.value): U(c.args[0]) for c in ext}
-        ok = got == {"relevant_obj_names": "(name for _ in range(exp))", "relevant_obj_indices": "(indices for _ in range(exp))"} \
-            and len({id(enclosing_stmt(c)._parent) for c in ext}) == 1
-        ctx.check(rule, fn, ok, f"{name}: name and indices repeated exponent-many times together",
-                  f"{name}: object names/indices are extended as {got}", key=f"{name} multiplicity")
-        be = [a for a in walk_fn(fn) if isinstance(a, ast.Assign) and U(a.targets[0]) == "(base, exp)"]
-        ctx.check(rule, fn, len(be) == 1 and U(be[0].value) == "obj.base_and_exponent", f"{name}: exponent of the object",
-                  f"{name}: exponent source changed", key=f"{name} exponent")
-        ni = [a for a in walk_fn(fn) if isinstance(a, ast.Assign) and U(a.targets[0]) == "(name, indices)"]
-        ctx.check(rule, fn, len(ni) == 1 and U(ni[0].value) == "(obj.longname(), obj.idx)", f"{name}: longname and indices of the object",
-                  f"{name}: name/indices source changed", key=f"{name} name idx")
-        skips = [n for n in walk_fn(fn) if isinstance(n, ast.Continue)]
-        okc = all(any(t in ("obj.sympy.is_number", "isinstance(base, Symbol)") and pol for t, pol in conditions(s)) for s in skips)
-        ctx.check(rule, fn, okc and len(skips) == 2, f"{name}: only numbers and symbols are skipped",
-                  f"{name}: objects are skipped under other conditions", key=f"{name} skips")
-        ra = [n for n in walk_fn(fn) if isinstance(n, ast.Raise) and ("exp < 0", True) in conditions(n)]
-        ctx.check(rule, fn, len(ra) == 1, f"{name}: divisions refused", f"{name}: negative exponents no longer refused", key=f"{name} neg exp")
-        tg = [a for a in common.assigns_to(fn, "target_indices")]
-        got = {("none" if ("target_indices is None", True) in conditions(a) else "given"): U(a.value) for a in tg}
-        ctx.check(rule, fn, got == {"none": "term.target", "given": "tuple(get_symbols(target_indices, target_spin))"},
-                  f"{name}: requested target order and spin kept", f"{name}: target indices are {got}", key=f"{name} targets")
+    _rule_over_scenarios(ctx, rule, "every tensor/delta used exactly once with multiplicity; requested targets in order", 30)
+    for fname in FUNCS:
+        fn = ctx.model.fn(OC + fname)
+        for spec in REFUSED:
+            ev = evaluated(ctx, spec, fname)
+            ok = ev.error is None and ev.kind == "raise" and ev.value == "NotImplementedError"
+            got = f"raises {ev.value}" if ev.kind == "raise" else ("returns " + (
+                "[" + "; ".join(r.show() for r in ev.recs) + "]" if ev.recs is not None else str(ev.error.msg if ev.error else ev.value)))
+            ctx.check(rule, fn, ok, f"{fname}({spec.describe()}) refused with NotImplementedError",
+                      f"{fname}({spec.describe()}): a term with a division or an object that is neither tensor, delta nor "
+                      f"prefactor must be refused with NotImplementedError, but the function {got}",
+                      key=f"{fname} | refused {spec.label}")
 
 
 def r16c(ctx):
     rule = "R16c"
+    _rule_over_scenarios(ctx, rule, "every contraction splits/sorts its indices as the reference", 30)
+    # decision table of the static split used by the group search
     fn = ctx.model.fn(CO + "Contraction._split_contracted_and_target")
-    app = [c for c in calls_in(fn) if call_name(c) == "append"]
-    for c in app:
-        which = U(c.func.value)
-        conds = conditions(c)
-        test = ("count == 1 or idx in term_target_indices", which == "target")
-        alt = {("count == 1", False), ("idx in term_target_indices", False)} if which == "contracted" else None
-        ok = test in conds or (alt is not None and alt <= conds)
-        ctx.check(rule, c, ok and U(c.args[0]) == "idx", f"{which}: " + ("counted once or term target" if which == "target" else "otherwise"),
-                  f"index classified as {which} under the wrong condition", key=f"split {which}")
-    ctx.floor(rule, "classification sites", len(app), 2)
-    cn = [a for a in common.assigns_to(fn, "idx_counter")]
-    ctx.check(rule, fn, len(cn) == 1 and U(cn[0].value) == "Counter(itertools.chain.from_iterable(indices))",
-              "occurrences counted over all objects of the contraction", "index counting changed", key="split counter")
-    r = common.returns_of(fn)
-    ctx.check(rule, fn, len(r) == 1 and U(r[0].value) == "(contracted, target)", "returns (contracted, target)",
-              "return order changed", key="split return")
-    d = ctx.model.fn(CO + "Contraction._determine_contracted_and_target")
-    srt = {U(a.targets[0]): U(a.value) for a in walk_fn(d) if isinstance(a, ast.Assign) and U(a.targets[0]) in ("contracted", "target")
-           and isinstance(a.value, ast.Call) and call_name(a.value) == "sorted"}
-    ctx.check(rule, d, srt == {"contracted": "sorted(contracted, key=sort_idx_canonical)", "target": "sorted(target, key=sort_idx_canonical)"},
-              "both groups sorted canonically", f"sorting is {srt}", key="sort")
-    ad = [a for a in walk_fn(d) if isinstance(a, ast.Assign) and U(a.targets[0]) == "target" and U(a.value) == "term_target_indices"]
-    ok = len(ad) == 1 and ("sorted(term_target_indices, key=sort_idx_canonical) == target", True) in conditions(ad[0])
-    ctx.check(rule, d, ok, "outer contraction adopts the requested target order", "adoption of the requested target order changed",
-              key="adopt order")
-    un = [a for a in walk_fn(d) if isinstance(a, ast.Assign) and U(a.targets[0]) == "(contracted, target)"]
-    ok = len(un) == 1 and U(un[0].value).replace(" ", "") == "self._split_contracted_and_target(self.indices,term_target_indices)"
-    ctx.check(rule, d, ok, "split of the contraction's own indices", "split arguments changed", key="split call")
-    st = {U(a.targets[0]): U(a.value) for a in walk_fn(d) if isinstance(a, ast.Assign) and U(a.targets[0]).startswith("self.")}
-    ctx.check(rule, d, st == {"self.contracted": "tuple(contracted)", "self.target": "tuple(target)"}, "stored", f"stores {st}", key="store")
+    table = [(("ij", "jk"), ""), (("ij", "jk"), "j"), (("ij", "ij"), "i"), (("iia",), ""), (("iia",), "i"), (("ia", "jb"), "ia"),
+             (("ijab", "abkl", "kc"), "ijc"), (("pq", "qp", "i"), ""), (("ij",), "ijk"), ((), "i"), (("", "i"), "")]
+    n = 0
+    for as_list in (False, True):
+        for ops, tg in table:
+            run = Run(ctx.model, f"_split_contracted_and_target({ops}, {tg!r})")
+            w = run.world
+            conv = list if as_list else tuple
+
+            def args():
+                return dict(indices=conv(tuple(w.indices(o)) for o in ops), term_target_indices=tuple(w.indices(tg)))
+            kind, v = run.call(fn, args)
+            keys = [tuple((k, "") for k in split_names(o)) for o in ops]
+            want_c, want_t = ref_split(keys, {(k, "") for k in split_names(tg)})
+            ok = kind == "return" and isinstance(v, tuple) and len(v) == 2 and all(isinstance(x, (list, tuple)) for x in v)
+            if ok:
+                try:
+                    got_c, got_t = (w.keyseq(x, "split result") for x in v)
+                    ok = set(got_c) == want_c and set(got_t) == want_t and len(got_c) == len(want_c) and len(got_t) == len(want_t)
+                except Malformed:
+                    ok = False
+            n += 1
+            ctx.check(rule, fn, ok, f"split{ops} | targets '{tg}'",
+                      f"_split_contracted_and_target({ops}, term targets '{tg}') gives {show_val(v) if kind == 'return' else 'raise ' + str(v)}; "
+                      f"expected (summed, kept) = ({fmt(sorted(want_c))}, {fmt(sorted(want_t))}), each index once",
+                      key=f"split table {ops} {tg} {'list' if as_list else 'tuple'}")
+    floor(ctx, rule, "rows of the split table", n, 20)
 
 
 def r16d(ctx):
     rule = "R16d"
-    fn = ctx.model.fn(CO + "Contraction._determine_scaling")
-    cs = {U(a.targets[0]): U(a.value) for a in walk_fn(fn) if isinstance(a, ast.Assign)}
-    ctx.check(rule, fn, cs.get("contracted_by_space") == "Counter((idx.space for idx in self.contracted))"
-              and cs.get("target_by_space") == "Counter((idx.space for idx in self.target))", "indices counted per space",
-              "per-space counters changed", key="counters")
-    comps = [a for a in walk_fn(fn) if isinstance(a, ast.Assign) and U(a.targets[0]) == "componentwise"]
-    vals = [U(a.value).replace(" ", "") for a in comps]
-    want = ["{space:contracted_by_space[space]+target_by_space[space]forspaceinIndices.base.keys()}",
-            "{space:target_by_space[space]forspaceinIndices.base.keys()}"]
-    alt0 = "{space:target_by_space[space]+contracted_by_space[space]forspaceinIndices.base.keys()}"
-    ctx.check(rule, fn, len(vals) == 2 and vals[0] in (want[0], alt0) and vals[1] == want[1],
-              "comp = contracted + target per space; mem = target per space", f"component tables are {vals}", key="components")
-    sc = [c for c in calls_in(fn) if call_name(c) == "ScalingComponent"]
-    tot = [U(kwarg(c, "total")) for c in sc]
-    ctx.check(rule, fn, tot == ["sum(componentwise.values())", "len(self.target)"], "totals: sum of components / number of targets",
-              f"totals are {tot}", key="totals")
-    s = [c for c in calls_in(fn) if call_name(c) == "Scaling"]
-    ok = len(s) == 1 and U(kwarg(s[0], "computational", 0)) == "comp_scaling" and U(kwarg(s[0], "memory", 1)) == "mem_scaling"
-    ctx.check(rule, fn, ok, "Scaling(computational, memory)", "Scaling construction changed", key="scaling ctor")
-    for cname, fields in (("ScalingComponent", ["total", "general", "virt", "occ"]), ("Scaling", ["computational", "memory"])):
+    _rule_over_scenarios(ctx, rule, "true scaling reported; returned scheme ranks lowest; never above the simultaneous contraction", 30)
+    n = sum(getattr(ev, "n_cands", 0) > 1 for _, _, ev in each(ctx))
+    floor(ctx, rule, "scenarios with several candidate schemes", n, 5)
+    # ScalingComponent / Scaling are ordered records that compare `total` (resp. computational) first
+    for cname, first, rest in (("ScalingComponent", "total", ("general", "virt", "occ")), ("Scaling", "computational", ("memory",))):
         cls = ctx.model.cls(CO + cname)
-        got = [U(n.target) for n in cls.body if isinstance(n, ast.AnnAssign)]
-        ctx.check(rule, cls, got[:1] == fields[:1] and sorted(got) == sorted(fields),
-                  f"{cname}: `{fields[0]}` compared first", f"{cname} fields are {got}; ranking relies on `{fields[0]}` first",
-                  key=f"{cname} fields")
-        deco = " ".join(U(d) for d in cls.decorator_list)
-        ctx.check(rule, cls, "order=True" in deco, f"{cname}: ordered dataclass", f"{cname} lost order=True", key=f"{cname} order")
-    # ranking in optimize_contractions: computational before memory, max then multiplicity
-    oc = ctx.model.fn(OC + "optimize_contractions")
-    ext = [U(c.args[0]).replace(" ", "") for c in calls_in(oc) if call_name(c) == "extend" and U(c.func.value) in ("scaling", "mem")]
-    ctx.check(rule, oc, ext == ["[max(comp_values),comp_values.count(max(comp_values))]", "[max(mem_values),mem_values.count(max(mem_values))]", "mem"],
-              "rank: max scaling then its multiplicity, computational before memory", f"ranking vector built as {ext}", key="ranking")
-    cmp_ = [n for n in walk_fn(oc) if isinstance(n, ast.If) and "optimal_scaling" in U(n.test)]
-    ok = any(U(n.test) == "optimal_scaling is None or scaling < optimal_scaling" for n in cmp_)
-    ctx.check(rule, oc, ok, "lowest ranking vector wins", "scheme selection test changed", key="selection")
-    v = {U(a.targets[0]): U(a.value) for a in walk_fn(oc) if isinstance(a, ast.Assign) and U(a.targets[0]) in ("comp_values", "mem_values")}
-    ctx.check(rule, oc, v == {"comp_values": "[getattr(contr.scaling.computational, field.name) for contr in scheme]",
-                              "mem_values": "[getattr(contr.scaling.memory, field.name) for contr in scheme]"},
-              "values taken from every contraction of the scheme", f"{v}", key="values")
+        info = dataclass_info(cls)
+        ok = info is not None and info["order"] and info["fields"][:1] == (first,) and set(info["fields"]) == {first, *rest}
+        ctx.check(rule, cls, ok, f"{cname}: ordered record, `{first}` compared first",
+                  f"{cname}: instances must be ordered with `{first}` as most significant field and carry the fields "
+                  f"{(first, *rest)}; found {info}", key=f"{cname} order")
+    # term_memory_requirements: the largest object of the term by total number of indices
+    fn = ctx.model.fn(CO + "term_memory_requirements")
+    for label, spaces, want in (("total first", ("ggg", "oovv", "ov"), "oovv"), ("then general", ("ovv", "gov", "oov"), "gov"),
+                                ("then virt", ("oov", "ovv", "ooo"), "ovv"), ("single", ("vv",), "vv")):
+        run = Run(ctx.model, f"term_memory_requirements {spaces}")
+
+        def args():
+            return dict(term=Obj(None, "term", objects=tuple(Obj(None, f"obj{k}", space=sp) for k, sp in enumerate(spaces))))
+        kind, v = run.call(fn, args)
+        exp = {"total": len(want), "general": want.count("g"), "virt": want.count("v"), "occ": want.count("o")}
+        got = {f: v.attrs.get(f) for f in FIELDS} if kind == "return" and isinstance(v, Obj) else (kind, show_val(v))
+        ctx.check(rule, fn, got == exp, f"term_memory_requirements{spaces} = {want}",
+                  f"term_memory_requirements for objects with the spaces {spaces} gives {got}, expected the scaling of the "
+                  f"largest object {exp}", key=f"memory requirements {label}")
 
 
 def r16e(ctx):
     rule = "R16e"
-    fn = ctx.model.fn(OC + "_group_objects")
-    stores = [a for a in walk_fn(fn) if isinstance(a, ast.Assign) and isinstance(a.targets[0], ast.Subscript)
-              and U(a.targets[0].value) == "groups"]
-    ctx.floor(rule, "group stores", len(stores), 1)
-    for s in stores:
-        key = U(s.targets[0].slice)
-        conds = conditions(s)
-        var = "new_positions" if "new_positions" in key else "positions"
-        if key == "key":
-            k = [a for a in common.assigns_to(fn, "key")]
-            var = "positions" if k and "positions" in U(k[0].value) else "?"
-        ok = (f"len({var}) > max_group_size", False) in conds
-        ctx.check(rule, s, ok, f"group of `{var}` stored only if it respects max_group_size",
-                  f"group `{key}` is stored without a dominating size test against max_group_size", key=f"size {key}")
-    d = [a for a in common.assigns_to(fn, "max_group_size")]
-    ok = any(U(a.value) == "len(obj_indices)" and ("max_group_size is None", True) in conditions(a) for a in d)
-    ctx.check(rule, fn, ok, "no limit = all objects", "default group size changed", key="default size")
-    oc = ctx.model.fn(OC + "_optimize_contractions")
-    conts = [n for n in walk_fn(oc) if isinstance(n, ast.Continue)]
-    dim = [c for c in conts if "max_itmd_dim" in U(c._parent.test)]
-    ok = len(dim) == 1 and U(dim[0]._parent.test).replace(" ", "").replace("(", "").replace(")", "") == \
-        "max_itmd_dimisnotNoneandcontraction.target!=target_indicesandlencontraction.target>max_itmd_dim"
-    ctx.check(rule, oc, ok, "inner contractions above max_itmd_dim discarded",
-              "the intermediate-dimension filter changed", key="itmd dim test")
-    if dim:
-        later = [n for n in walk_fn(oc) if isinstance(n, (ast.Yield, ast.YieldFrom)) or
-                 (isinstance(n, ast.Call) and call_name(n) == "_optimize_contractions")]
-        ctx.check(rule, oc, all(n.lineno > dim[0].lineno for n in later), "filter precedes recursion and yield",
-                  "a scheme is emitted before the dimension filter", key="itmd dim order")
-    g = [c for c in calls_in(oc) if call_name(c) == "_group_objects"]
-    ok = len(g) == 1 and U(kwarg(g[0], "max_group_size", 2)) == "max_n_simultaneous_contracted" \
-        and U(kwarg(g[0], "obj_indices", 0)) == "relevant_obj_indices" and U(kwarg(g[0], "target_indices", 1)) == "target_indices"
-    ctx.check(rule, oc, ok, "group limit forwarded", "arguments of _group_objects changed", key="group args")
+    _rule_over_scenarios(ctx, rule, "limits on simultaneously contracted objects and intermediate dimension respected", 30)
+    n = sum(1 for _, spec, _ in each(ctx) if spec.max_dim is not None or spec.max_n is not None)
+    floor(ctx, rule, "scenarios with limits", n, 4)
+    fn = ctx.model.fn(OC + "optimize_contractions")
+    for spec in IMPOSSIBLE:
+        ev = evaluated(ctx, spec, "optimize_contractions")
+        ok = ev.error is None and ev.kind == "raise" and ev.value == "RuntimeError"
+        got = f"raises {ev.value}" if ev.kind == "raise" else "returns " + (
+            "[" + "; ".join(r.show() for r in ev.recs) + "]" if ev.recs is not None else str(ev.error.msg if ev.error else ev.value))
+        ctx.check(rule, fn, ok, f"{spec.describe()}: no scheme within the limits -> RuntimeError",
+                  f"optimize_contractions({spec.describe()}): no scheme respects the limits, RuntimeError expected, but the "
+                  f"function {got}", key=f"impossible {spec.label}")
 
 
 def r16f(ctx):
     rule = "R16f"
-    oc = ctx.model.fn(OC + "_optimize_contractions")
-    a = {U(x.targets[0]): U(x.value).replace(" ", "") for x in walk_fn(oc) if isinstance(x, ast.Assign)}
-    ctx.check(rule, oc, a.get("contr_indices") == "tuple((relevant_obj_indices[pos]forposingroup))"
-              and a.get("contr_names") == "tuple((relevant_obj_names[pos]forposingroup))", "contraction built from the group's objects",
-              "group -> contraction mapping changed", key="group objects")
-    ctx.check(rule, oc, a.get("remaining_pos") == "[posforposinrange(len(relevant_obj_names))ifposnotingroup]",
-              "exactly the group's objects leave the pool", f"remaining positions: {a.get('remaining_pos')}", key="remaining pos")
-    ctx.check(rule, oc, a.get("remaining_names") == "(contraction.contraction_name,*(relevant_obj_names[pos]forposinremaining_pos))"
-              and a.get("remaining_indices") == "(contraction.target,*(relevant_obj_indices[pos]forposinremaining_pos))",
-              "result re-enters the pool under its unique name with its target indices",
-              f"pool update: {a.get('remaining_names')} / {a.get('remaining_indices')}", key="pool")
-    rec = [c for c in calls_in(oc) if call_name(c) == "_optimize_contractions"]
-    ok = len(rec) == 1 and {k.arg: U(k.value) for k in rec[0].keywords} == {
-        "relevant_obj_names": "remaining_names", "relevant_obj_indices": "remaining_indices", "target_indices": "target_indices",
-        "max_itmd_dim": "max_itmd_dim", "max_n_simultaneous_contracted": "max_n_simultaneous_contracted"}
-    ctx.check(rule, oc, ok, "recursion on the reduced pool with the same targets and limits", "recursive call changed", key="recursion")
-    ys = [n for n in walk_fn(oc) if isinstance(n, ast.Yield)]
-    done = [y for y in ys if U(y.value) == "[contraction]"]
-    ok = len(done) == 1 and ("len(remaining_names) == 1", True) in conditions(done[0])
-    ctx.check(rule, oc, ok, "a scheme is complete when one object is left", "termination condition changed", key="termination")
-    ins = [c for c in calls_in(oc) if call_name(c) == "insert"]
-    ok = len(ins) == 1 and [U(x) for x in ins[0].args] == ["0", "contraction"]
-    ctx.check(rule, oc, ok, "contraction placed before the contractions that consume it", "scheme order changed", key="order")
-    ct = [c for c in calls_in(oc) if call_name(c) == "Contraction"]
-    ok = len(ct) == 1 and U(kwarg(ct[0], "term_target_indices", 2)) == "target_indices"
-    ctx.check(rule, oc, ok, "term targets passed to every contraction", "term target indices not passed", key="term targets")
-    cl = ctx.model.cls(CO + "Contraction")
-    init = ctx.model.fn(CO + "Contraction.__init__")
-    ids = {U(x.targets[0] if isinstance(x, ast.Assign) else x.target): U(x.value) for x in walk_fn(init)
-           if isinstance(x, (ast.Assign, ast.AnnAssign)) and x.value is not None}
-    ctx.check(rule, init, ids.get("self.id") == "next(self._instance_counter)" and
-              ids.get("self.contraction_name") == "f'{self._base_name}_{self.id}'", "unique contraction names",
-              "contraction naming changed", key="unique name")
-    ic = ctx.model.fn(CO + "Contraction.is_contraction")
-    r = common.returns_of(ic)
-    ctx.check(rule, ic, len(r) == 1 and U(r[0].value) == "name.startswith(Contraction._base_name)", "inner results recognised by the name prefix",
-              "is_contraction changed", key="is_contraction")
-    top = ctx.model.fn(OC + "optimize_contractions")
-    e = [r for r in common.returns_of(top) if U(r.value) == "[]"]
-    ctx.check(rule, top, len(e) == 1 and ("relevant_obj_names", False) in conditions(e[0]), "no tensors: empty scheme",
-              "empty-term shortcut changed", key="empty")
-    un = ctx.model.fn(OC + "unoptimized_contraction")
-    r = common.returns_of(un)
-    ok = len(r) == 1 and isinstance(r[0].value, ast.List) and len(r[0].value.elts) == 1 and call_name(r[0].value.elts[0]) == "Contraction" \
-        and U(kwarg(r[0].value.elts[0], "indices", 0)) == "relevant_obj_indices" and U(kwarg(r[0].value.elts[0], "names", 1)) == "relevant_obj_names" \
-        and U(kwarg(r[0].value.elts[0], "term_target_indices", 2)) == "target_indices"
-    ctx.check(rule, un, ok, "unoptimised: one contraction of all objects", "unoptimized_contraction changed", key="unoptimized")
+    _rule_over_scenarios(ctx, rule, "unique names, every intermediate consumed once after it was produced, single final contraction", 30)
+    for fname in FUNCS:
+        fn = ctx.model.fn(OC + fname)
+        for spec in EMPTY:
+            ev = evaluated(ctx, spec, fname)
+            if fname == "optimize_contractions":
+                ok = ev.error is None and ev.kind == "return" and ev.recs == []
+                want = "the empty scheme []"
+            else:
+                # the single simultaneous contraction of no objects
+                ok = ev.error is None and ev.kind == "return" and len(ev.recs) == 1 and not ev.recs[0].names
+                want = "one contraction of no objects"
+            ctx.check(rule, fn, ok, f"{fname}({spec.describe()}): {want}",
+                      f"{fname}({spec.describe()}): a term without tensors must give {want}; got "
+                      f"{(ev.kind, show_val(ev.value)) if ev.error is None else ev.error.msg}", key=f"{fname} | empty {spec.label}")
+    # names of inner results are recognised, tensor names are not
+    fn = ctx.model.fn(CO + "Contraction.is_contraction")
+    names = set()
+    for _, _, ev in each(ctx):
+        if ev.recs:
+            names.update(r.cname for r in ev.recs[:3])
+    table = [(n, True) for n in sorted(names)[:6]] + [(n, False) for n in ("V", "t2_1", "delta", "f", "Y", "c")]
+    for name, want in table:
+        run = Run(ctx.model, f"is_contraction({name})")
+        kind, v = run.call(fn, lambda: dict(name=name))
+        ctx.check(rule, fn, kind == "return" and v is want, f"is_contraction('{name}') = {want}",
+                  f"Contraction.is_contraction('{name}') gives {v!r}, expected {want}: results of inner contractions are "
+                  "recognised by their generated name, tensors of the term are not", key=f"is_contraction {name if not want else 'generated'}")
+    floor(ctx, rule, "generated contraction names", len(names), 3)
 
 
 def r16g(ctx):
-    rule = "R16g"
-    oc = ctx.model.fn(OC + "_optimize_contractions")
-    go = ctx.model.fn(OC + "_group_objects")
-    # (B) elimination guarded by a test of the summed indices against the remaining objects
-    guard = None
-    for n in walk_fn(oc):
-        if isinstance(n, ast.If) and n.body and isinstance(n.body[-1], ast.Continue):
-            t = U(n.test)
-            if "contraction.contracted" in t and ("remaining_pos" in t or "remaining_indices" in t):
-                guard = n
-    if guard is not None:
-        later = [n for n in walk_fn(oc) if isinstance(n, ast.Yield) or (isinstance(n, ast.Call) and call_name(n) == "_optimize_contractions")]
-        ok = all(n.lineno > guard.lineno for n in later)
-        ctx.check(rule, guard, ok, "a group whose summed index still occurs on a remaining object is discarded before elimination",
-                  "closure test placed after a scheme is emitted", key="closure guard")
-        return
-    # (A) only closed groups are ever stored
-    stores = [a for a in walk_fn(go) if isinstance(a, ast.Assign) and isinstance(a.targets[0], ast.Subscript)
-              and U(a.targets[0].value) == "groups"]
-    loops = [n for n in walk_fn(go) if isinstance(n, ast.While)]
-    pre = [s for s in stores if not any(s in list(ast.walk(w)) for w in loops) and loops and s.lineno < loops[0].lineno]
-    inside = [s for s in stores if any(s in list(ast.walk(w)) for w in loops)]
-    if not pre and not inside:
-        ctx.ok(rule, go, "groups are stored only after the closure loop reached its fix point")
-        return
-    s = (pre + inside)[0]
-    ctx.bad(rule, s, "_group_objects stores a group before its closure loop reaches the fix point, and "
-            "_optimize_contractions replaces the group by its result without testing that no index it sums "
-            "(contraction.contracted) still occurs on a remaining object: the index is summed inside the group "
-            "while another tensor still carries it", fn=OC + "_optimize_contractions", key="non-closed group eliminated")
+    _rule_over_scenarios(ctx, "R16g", "no index is summed while another live object still carries it", 30)
+
+
+def r16h(ctx):
+    _rule_over_scenarios(ctx, "R16h", "evaluated step by step the scheme gives the value of the term", 30)
 
 
 def run(ctx):
     for r, f in (("R16a", r16a), ("R16b", r16b), ("R16c", r16c), ("R16d", r16d), ("R16e", r16e), ("R16f", r16f),
-                 ("R16g", r16g)):
+                 ("R16g", r16g), ("R16h", r16h)):
         if ctx.want(r):
             f(ctx)
